@@ -1,5 +1,169 @@
-"""Run libFuzzer campaigns (E3) and merge their results into a Reporter. (filled in later)"""
+"""Run libFuzzer campaigns (E3: cargo-fuzz targets over the mirror crate, ASan on) and merge the results
+into a Reporter.  Campaigns are fixed-work (-runs), seeded from VERIF_SEED, start from a fresh copy of the
+committed corpus; a crash / oracle panic / ASan report is a violation with the saved input as replay,
+a libFuzzer timeout or OOM is inconclusive (exit 2), never a violation."""
+import concurrent.futures
+import hashlib
+import json
+import os
+import re
+import shutil
+import subprocess
+import time
+
+from vlib import build, core
+
+# property -> [(target, quick runs per worker, thorough runs per worker, max_len)]
+PLAN = {
+    "C01": [("decoders", 400_000, 12_000_000, 4080), ("recv_path", 60_000, 1_500_000, 2048)],
+    "C16": [("decoders", 400_000, 12_000_000, 1024)],
+    "C17": [("buffer_ops", 40_000, 1_500_000, 600)],
+}
+
+
+def _env():
+    e = build.run_env()
+    e["ASAN_OPTIONS"] = "detect_leaks=0:abort_on_error=0:allocator_may_return_null=1"
+    e["RUST_BACKTRACE"] = "0"
+    return e
+
+
+def signature_from(stderr):
+    m = re.search(r"ORACLE:([A-Za-z0-9_:=,.-]+)", stderr)
+    if m:
+        return "oracle:" + m.group(1)
+    m = re.search(r"panicked at ([^\s:]+):(\d+)", stderr)
+    if m:
+        f = m.group(1)
+        f = f.split("/src/")[-1] if "/src/" in f else f
+        return "panic:%s:%s" % (f, m.group(2))
+    m = re.search(r"ERROR: AddressSanitizer: ([a-z-]+)", stderr)
+    if m:
+        return "asan:" + m.group(1)
+    m = re.search(r"ERROR: libFuzzer: ([a-z -]+)", stderr)
+    if m:
+        return "libfuzzer:" + m.group(1).strip().replace(" ", "-")
+    return "crash"
+
+
+def _worker(binary, workdir, runs, seed, max_len, corpus_src):
+    shutil.rmtree(workdir, ignore_errors=True)
+    cdir = os.path.join(workdir, "corpus")
+    adir = os.path.join(workdir, "artifacts")
+    os.makedirs(cdir)
+    os.makedirs(adir)
+    if os.path.isdir(corpus_src):
+        for f in os.listdir(corpus_src):
+            shutil.copy(os.path.join(corpus_src, f), os.path.join(cdir, f))
+    cmd = [binary, "-runs=%d" % runs, "-seed=%d" % seed, "-max_len=%d" % max_len, "-len_control=0", "-timeout=10",
+           "-rss_limit_mb=4096", "-artifact_prefix=%s/" % adir, "-print_final_stats=1", "-verbosity=0", cdir]
+    t0 = time.time()
+    p = subprocess.run(cmd, stdout=subprocess.PIPE, stderr=subprocess.PIPE, text=True, errors="replace", env=_env(), cwd=workdir)
+    m = re.search(r"stat::number_of_executed_units:\s*(\d+)", p.stderr)
+    execs = int(m.group(1)) if m else 0
+    arts = sorted(os.listdir(adir))
+    keep = "\n".join(l for l in p.stderr.splitlines() if ("ORACLE" in l or "panicked" in l or "ERROR:" in l or "SUMMARY" in l))[:3000]
+    return {"rc": p.returncode, "execs": execs, "artifacts": [os.path.join(adir, a) for a in arts], "stderr": keep + "\n" + p.stderr[-3000:],
+            "signature": signature_from(p.stderr) if p.returncode != 0 else None,
+            "corpus": cdir, "wall": time.time() - t0, "seed": seed}
+
+
+def _classify(binary, corpus_dirs):
+    """Re-run the target over the final corpora in classify mode: distinct non-trivial inputs and samples."""
+    seen = {}
+    samples = []
+    classes = {}
+    env = _env()
+    env["VERIF_CLASSIFY"] = "1"
+    for cdir in corpus_dirs:
+        files = [os.path.join(cdir, f) for f in sorted(os.listdir(cdir))]
+        for i in range(0, len(files), 400):
+            chunk = files[i:i + 400]
+            p = subprocess.run([binary, "-verbosity=0"] + chunk, stdout=subprocess.PIPE, stderr=subprocess.PIPE, text=True, errors="replace", env=env)
+            for line in p.stderr.splitlines():
+                if line.startswith("CLASS "):
+                    _, h, nt, tag = line.split(" ", 3)
+                    classes[tag] = classes.get(tag, 0) + 1
+                    if nt == "1" and h not in seen:
+                        seen[h] = tag
+        for f in files[:3]:
+            if len(samples) < 5:
+                with open(f, "rb") as fh:
+                    samples.append({"engine": "E3/libFuzzer", "corpus_input_hex": fh.read()[:120].hex()})
+    return len(seen), classes, samples
 
 
 def run_fuzz_part(rep, tier, pid):
-    return
+    plan = PLAN.get(pid, [])
+    if not plan:
+        return
+    try:
+        bins = build.ensure_fuzz()
+    except build.BuildError as e:
+        rep.parts["E3"] = {"status": "unavailable", "reason": "fuzz harness does not build against this tree: %s" % str(e)[-400:]}
+        print("[%s] E3 part unavailable (fuzz harness does not build); verdict from the other engines" % pid)
+        return
+    workers = 4 if tier == "quick" else 16
+    part = {"status": "ran", "campaigns": []}
+    for target, qruns, truns, max_len in plan:
+        if target not in bins:
+            continue
+        runs = qruns if tier == "quick" else truns
+        base = os.path.join(build.BUILD, "fuzzrun", "%s-%s" % (pid, target))
+        corpus_src = os.path.join(build.VERIF, "corpus", target)
+        with concurrent.futures.ThreadPoolExecutor(workers) as ex:
+            futs = [ex.submit(_worker, bins[target], os.path.join(base, "w%d" % i), runs, (rep.seed * 1000 + i + 1) & 0x7FFFFFFF, max_len, corpus_src)
+                    for i in range(workers)]
+            results = [f.result() for f in futs]
+        execs = sum(r["execs"] for r in results)
+        rep.evaluations += execs
+        rep.classes["E3:%s:executions" % target] = execs
+        inconclusive = None
+        for r in results:
+            if r["rc"] == 0:
+                continue
+            arts = r["artifacts"]
+            bad = [a for a in arts if os.path.basename(a).startswith(("crash-", "leak-"))]
+            slow = [a for a in arts if os.path.basename(a).startswith(("timeout-", "oom-", "slow-unit-"))]
+            if bad:
+                sig = r["signature"] or "crash"
+                with open(bad[0], "rb") as fh:
+                    data = fh.read()
+                tail = "\n".join(l for l in r["stderr"].splitlines() if "ORACLE" in l or "panicked" in l or "ERROR:" in l or "SUMMARY" in l)[-1500:]
+                rep.violation(sig, {"engine": "E3", "target": target, "input": data, "seed": r["seed"]},
+                              "libFuzzer target %s stopped on a %d-octet input: %s" % (target, len(data), tail))
+                part["campaigns"].append({"target": target, "executions": execs, "result": "violation"})
+                rep.parts["E3"] = part
+                return
+            if slow or r["rc"] != 0:
+                inconclusive = "libFuzzer target %s ended with status %d (%s)" % (target, r["rc"], ", ".join(os.path.basename(a) for a in arts) or r["stderr"][-300:])
+        if inconclusive:
+            rep.parts["E3"] = part
+            raise core.Inconclusive(inconclusive)
+        nt, classes, samples = _classify(bins[target], [r["corpus"] for r in results])
+        rep.nontrivial_extra += nt
+        for k, v in classes.items():
+            rep.classes["E3:%s:%s" % (target, k)] = rep.classes.get("E3:%s:%s" % (target, k), 0) + v
+        for s in samples[:2]:
+            if len(rep.nt_samples) < 9:
+                rep.nt_samples.append(s)
+        part["campaigns"].append({"target": target, "workers": workers, "runs_per_worker": runs, "executions": execs,
+                                  "distinct_nontrivial_corpus_inputs": nt, "wall_s": round(max(r["wall"] for r in results), 1)})
+        shutil.rmtree(base, ignore_errors=True)
+    rep.parts["E3"] = part
+
+
+def replay_input(rep, pid, case):
+    """Replay a saved fuzz input (strict: any crash is reported)."""
+    bins = build.ensure_fuzz()
+    target = case["target"]
+    data = case["input"]
+    d = os.path.join(build.BUILD, "fuzzrun", "replay")
+    os.makedirs(d, exist_ok=True)
+    f = os.path.join(d, hashlib.sha1(data).hexdigest()[:12])
+    with open(f, "wb") as fh:
+        fh.write(data)
+    p = subprocess.run([bins[target], "-verbosity=0", f], stdout=subprocess.PIPE, stderr=subprocess.PIPE, text=True, errors="replace", env=_env(), cwd=d)
+    if p.returncode != 0:
+        rep.violation(signature_from(p.stderr), case, "replay of saved fuzz input on target %s: status %d: %s" % (target, p.returncode, p.stderr[-800:]))
+    return p.returncode
